@@ -3,6 +3,7 @@ package main
 // SSA interpreter over symbolic values. Structure follows golang.org/x/tools/go/ssa/interp.
 
 import (
+	"math"
 	"fmt"
 	"go/constant"
 	"go/token"
@@ -1058,7 +1059,23 @@ func (in *Interp) binop(fr *frame, op token.Token, t types.Type, xv, yv Value) V
 			}
 			return r
 		}
+	case FloatSym:
+		if op == token.EQL || op == token.NEQ {
+			r := in.equal(fr, xv, yv)
+			if op == token.NEQ {
+				r = BNot(r)
+			}
+			return r
+		}
+		panic(pathAbort{"unsupported: arithmetic/ordering on float64(symbolic int) at " + fr.site()})
 	case FloatV:
+		if _, isSym := yv.(FloatSym); isSym && (op == token.EQL || op == token.NEQ) {
+			r := in.equal(fr, xv, yv)
+			if op == token.NEQ {
+				r = BNot(r)
+			}
+			return r
+		}
 		y, ok := yv.(FloatV)
 		if !ok {
 			break
@@ -1110,6 +1127,36 @@ func (in *Interp) symStrBinop(fr *frame, op token.Token, c string, s *SymStr) Va
 	return r
 }
 
+// i2f64bits: IEEE-754 double bits of float64(x) for a 64-bit integer term (signed or
+// unsigned), round to nearest even, as a bit-vector circuit (no FP theory needed).
+func i2f64bits(x *Term, signed bool) *Term {
+	zero := BV(64, 0)
+	sign := zero
+	mag := x
+	if signed {
+		neg := Slt(x, zero)
+		mag = Ite(neg, Neg(x), x)
+		sign = Ite(neg, BV(64, 1<<63), zero)
+	}
+	// count leading zeros by binary search, normalising as we go
+	lz := zero
+	n := mag
+	for _, k := range []uint64{32, 16, 8, 4, 2, 1} {
+		top := LShr(n, BV(64, 64-k))
+		z := Eq(top, zero)
+		n = Ite(z, Shl(n, BV(64, k)), n)
+		lz = Ite(z, Add(lz, BV(64, k)), lz)
+	}
+	// n has its leading one at bit 63 (for mag != 0)
+	mant := And(LShr(n, BV(64, 11)), BV(64, (1<<52)-1))
+	rem := And(n, BV(64, 0x7FF))
+	lsb := And(LShr(n, BV(64, 11)), BV(64, 1))
+	up := BOr(Ugt(rem, BV(64, 0x400)), BAnd(Eq(rem, BV(64, 0x400)), Eq(lsb, BV(64, 1))))
+	exp := Sub(BV(64, 1023+63), lz)
+	bits := Add(Add(Shl(exp, BV(64, 52)), mant), Ite(up, BV(64, 1), zero))
+	return Ite(Eq(mag, zero), zero, Or(bits, sign))
+}
+
 // equal implements == on arbitrary values, returning a boolean term.
 func (in *Interp) equal(fr *frame, a, b Value) *Term {
 	switch x := a.(type) {
@@ -1153,6 +1200,25 @@ func (in *Interp) equal(fr *frame, a, b Value) *Term {
 	case FloatV:
 		if y, ok := b.(FloatV); ok {
 			return Bool(x.v == y.v)
+		}
+		if y, ok := b.(FloatSym); ok {
+			return in.equal(fr, y, x)
+		}
+	case FloatSym:
+		// values converted from integers are never NaN and never -0: float equality is
+		// equality of the bit patterns
+		switch y := b.(type) {
+		case FloatSym:
+			return Eq(x.bits, y.bits)
+		case FloatV:
+			if y.v != y.v {
+				return FalseT
+			}
+			f := y.v
+			if f == 0 {
+				f = 0 // -0 == +0
+			}
+			return Eq(x.bits, BV(64, math.Float64bits(f)))
 		}
 	case *Value:
 		switch y := b.(type) {
@@ -1307,7 +1373,12 @@ func (in *Interp) convert(fr *frame, src, dst types.Type, v Value) Value {
 		if isFloat(dst) {
 			c, ok := v.(*Term).SConst()
 			if !ok {
-				panic(pathAbort{"unsupported: float(symbolic int) at " + fr.site()})
+				if b, isB := ud.(*types.Basic); isB && b.Kind() == types.Float64 {
+					// float64(symbolic integer): the IEEE-754 bits as a bit-vector circuit
+					sw, _, _ := intWidth(src)
+					return FloatSym{bits: i2f64bits(Resize(v.(*Term), 64, ssigned), ssigned && sw <= 64)}
+				}
+				panic(pathAbort{"unsupported: float32(symbolic int) at " + fr.site()})
 			}
 			if !ssigned {
 				u, _ := v.(*Term).Const()
@@ -1440,6 +1511,16 @@ func (in *Interp) castFromUnsafe(fr *frame, v Value, elem types.Type) Value {
 	case nil:
 		return (*Value)(nil)
 	}
+	if _, isMap := v.(*MapV); isMap {
+		if _, isStruct := elem.Underlying().(*types.Struct); isStruct {
+			// the data word of a map is the runtime's map header: viewing it as some other
+			// struct (and writing through it) corrupts the map. No model can follow that;
+			// it is reported as a memory-safety violation of the path.
+			in.reportViolation(in.harness+".no-type-confused-memory-access", "", fr.site(), "memsafety",
+				fmt.Sprintf("a map's header is viewed as *%s through unsafe.Pointer", elem), nil)
+			panic(pathEnd{"type-confused access"})
+		}
+	}
 	panic(pathAbort{fmt.Sprintf("unsupported: cast of %T to *%s at %s", v, elem, fr.site())})
 }
 
@@ -1486,6 +1567,22 @@ func (in *Interp) addrOf(fr *frame, v Value) *Term {
 	case ElemPtr:
 		base := in.arrAddr(p.arr)
 		return Add(base, BV(64, uint64(p.idx)))
+	case *MapV:
+		if p == nil {
+			return BV(64, 0)
+		}
+		return in.cellAddr(&p.rc)
+	case Slice:
+		if p.nilS {
+			return BV(64, 0)
+		}
+		if p.img {
+			return p.addr
+		}
+		if p.arr != nil {
+			return Add(in.arrAddr(p.arr), BV(64, uint64(p.off)))
+		}
+		return BV(64, 0)
 	case nil:
 		return BV(64, 0)
 	}
